@@ -20,40 +20,43 @@ Theorem C08_rest_is_suffix : forall san s, wf_schema s = true ->
     dec1 fuel san s t bare ps b = Some (Ok (v, rest)) -> exists pfx, b = pfx ++ rest.
 Proof.
   intros san s _ fuel t bare ps b v rest H.
-  destruct (dec1_consumes san s fuel t bare ps b v rest H) as [pfx [E _]]. now exists pfx.
+  destruct (dec1_consumes san s [] (dc_ok_nil s) fuel t bare ps b v rest H) as [pfx [E _]]. now exists pfx.
 Qed.
 Print Assumptions C08_rest_is_suffix.
 
-(** ... and every call except a bare struct / bare tuple consumes at least one byte when it
-    succeeds (this is what makes the potential below decrease). *)
-Theorem C08_consuming_calls_consume : forall san s fuel t bare ps b v rest,
-  dec1 fuel san s t bare ps b = Some (Ok (v, rest)) -> nc s t bare = false ->
+(** ... and every call except a bare tuple or a bare struct not certified by [dc] (bare structs
+    that contain an unmasked definitely-consuming field; checked by the boolean [dc_ok]) consumes
+    at least one byte when it succeeds (this is what makes the potential below decrease). *)
+Theorem C08_consuming_calls_consume : forall san s dc, dc_ok s dc = true ->
+  forall fuel t bare ps b v rest,
+  dec1 fuel san s t bare ps b = Some (Ok (v, rest)) -> dcall s dc t bare = true ->
   (length rest < length b)%nat.
 Proof.
-  intros san s fuel t bare ps b v rest H Hnc.
-  pose proof (SUF_len _ _ _ (dec1_consumes san s fuel t bare ps b v rest H)) as [_ Hl].
-  apply Hl. now rewrite Hnc.
+  intros san s dc Hdc fuel t bare ps b v rest H Hc.
+  pose proof (SUF_len _ _ _ (dec1_consumes san s dc Hdc fuel t bare ps b v rest H)) as [_ Hl].
+  now apply Hl.
 Qed.
 Print Assumptions C08_consuming_calls_consume.
 
-(** (C) Termination.  [ranked s rank] is a boolean, linear-time check of an explicit ranking
-    (found by the check's topological sort and verified by the extracted [ranked] on every
-    kernel dump).  With the fuel [(max_rank + 2) * (|b| + 1)] the reader never runs out of fuel,
+(** (C) Termination.  [ranked s dc rank] is a boolean, linear-time check of explicit certificates
+    (found by the check's fixpoint + topological sort and verified by the extracted [ranked] on
+    every kernel dump).  With the fuel [(max_rank + 2) * (|b| + 1)] the reader never runs out of fuel,
     whatever the type, the nat arguments and the input bytes; by (A) every larger fuel gives the
     same answer. *)
-Theorem C08_total_ranked : forall san s rank, wf_schema s = true -> ranked s rank = true ->
+Theorem C08_total_ranked : forall san s dc rank, wf_schema s = true -> ranked s dc rank = true ->
   forall t bare ps b fuel, (fuel_bound rank b <= fuel)%nat -> dec1 fuel san s t bare ps b <> None.
-Proof. intros san s rank _ Hr. exact (dec1_total_ranked san s rank Hr). Qed.
+Proof. intros san s dc rank _ Hr. exact (dec1_total_ranked san s dc rank Hr). Qed.
 Print Assumptions C08_total_ranked.
 
-(** the same with the ranking computed inside the model ([productive s := ranked s (auto_rank s)]) *)
+(** the same with the certificates computed inside the model
+    ([productive s := ranked s (auto_dc s) (auto_rank s)]) *)
 Theorem C08_total_productive : forall san s, wf_schema s = true -> productive s = true ->
   forall t bare ps b, dec1 (fuel_bound (auto_rank s) b) san s t bare ps b <> None.
 Proof. intros san s _ Hp. exact (dec1_total_productive san s Hp). Qed.
 Print Assumptions C08_total_productive.
 
 (** the potential that decreases along every nested reader call *)
-Theorem C08_total_potential : forall san s rank, ranked s rank = true ->
+Theorem C08_total_potential : forall san s dc rank, ranked s dc rank = true ->
   forall fuel t bare ps b, (phi s rank t bare b < fuel)%nat -> dec1 fuel san s t bare ps b <> None.
 Proof. exact dec1_total_phi. Qed.
 Print Assumptions C08_total_potential.
@@ -67,7 +70,7 @@ Theorem C08_refuted_F1 : exists s t b,
 Proof. exists f1_schema, 2%nat, f1_input. split; [exact f1_wf|exact f1_diverges]. Qed.
 Print Assumptions C08_refuted_F1.
 
-Theorem C08_F1_not_productive : productive f1_schema = false /\ forall rank, ranked f1_schema rank = false.
+Theorem C08_F1_not_productive : productive f1_schema = false /\ forall dc rank, ranked f1_schema dc rank = false.
 Proof. split; [exact f1_not_productive|exact f1_no_ranking]. Qed.
 Print Assumptions C08_F1_not_productive.
 
@@ -140,8 +143,9 @@ Definition ex8_schema : schema :=
     TArray (ATupleFixed 2) (mkField 4 true None []) ].
 
 Example C08_ex_productive : wf_schema ex8_schema = true /\ productive ex8_schema = true /\
-  auto_rank ex8_schema = [0; 0; 2; 0; 0; 1]%nat /\ ranked ex8_schema [0; 0; 7; 0; 3; 5]%nat = true.
-Proof. vm_compute. auto. Qed.
+  auto_rank ex8_schema = [0; 0; 2; 0; 0; 1]%nat /\ auto_dc ex8_schema = [false; false; true; false; true; false] /\
+  ranked ex8_schema [] [0; 0; 7; 0; 3; 5]%nat = true.
+Proof. vm_compute. auto 6. Qed.
 
 Example C08_ex_read :
   let b := [9; 0; 0; 0; 10; 0; 0; 0;  1; 0; 0; 0;  7; 0; 0; 0; 8; 0; 0; 0;  0; 0; 0; 0;  99] in
@@ -159,3 +163,16 @@ Proof. vm_compute. reflexivity. Qed.
 
 Example C08_ex_f1_fuel : dec1 5000 true f1_schema 2 true [] f1_input = None.
 Proof. exact (f1_diverges 5000). Qed.
+
+(** a bare typedef wrapper (vector<int> as a struct around the array) in front of a recursion under an
+    EXTERNAL mask: ranked only thanks to the [dc] certificate (the wrapper definitely consumes) *)
+Definition ex8b_schema : schema :=
+  [ TPrim PInt;
+    TArray AVector (mkField 0 true None []);
+    TStruct 55 [ mkField 1 true None [] ];                                  (* 2: vector<int> wrapper *)
+    TStruct 66 [ mkField 2 true None []; mkField 3 true (Some (NParam 0, 2)) [NParam 0] ] ].  (* 3: t {p:#} f2:%(vector int) f3:p.2?(t p) *)
+
+Example C08_ex_dc_needed :
+  productive ex8b_schema = true /\ auto_dc ex8b_schema = [false; false; true; true] /\
+  ranked ex8b_schema [] [0; 0; 0; 0]%nat = false /\ ranked ex8b_schema [false; false; true; false] [0; 0; 0; 1]%nat = true.
+Proof. vm_compute. auto. Qed.
